@@ -2220,7 +2220,7 @@ Result exec_plan(const Plan& plan)
     install_handlers();
     const std::string prop = plan.get("property");
     g_prop = prop;
-    g_isolate = prop == "C20";
+    g_isolate = prop == "C20" || plan.geti("isolate") != 0;
     Result res;
     sim::Hasher fp;
     fs_reset();
@@ -3079,7 +3079,12 @@ Plan gen_plan(u64 seed, const std::string& prop, const std::string& tier)
 {
     load_corpus();
     install_handlers();
-    return prop == "C09" ? gen_c09(seed, tier) : gen_c20(seed, tier);
+    if(prop != "C09") return gen_c20(seed, tier);
+    Plan p = gen_c09(seed, tier);
+    // one C09 plan in twelve runs sbeppc in a fresh process per invocation, like every C20 plan (all of
+    // them would cost six times the CPU)
+    if(sim::Rng(seed).fork("isolate").chance(1, 12)) p.seti("isolate", 1);
+    return p;
 }
 
 std::vector<Op> shrink_op(const Plan&, const Op& o)
